@@ -33,7 +33,7 @@ func init() {
 	})
 	register(&Prop{
 		ID:    "C10",
-		Rules: []func(*core.Ctx){RGuard, RPanic, RFatal, RNilMatch, RCatTable, rDirFoldOnly, RIdxSib, RGrowCmp, REmptyIter},
+		Rules: []func(*core.Ctx){RGuard, RPanic, RFatal, RNilMatch, RCatTable, rDirFoldOnly, RIdxSib, RGrowCmp, REmptyIter, RRuneWidth},
 		Explanation: "R-GUARD: abstract interpretation (lower bound on charsRight(), difference bounds for mirror variables, saved positions) over go/cfg of every function of package syntax that uses the parser's position primitives: each pattern read is proven to be preceded on every path by a sufficient length test; who-may-index p.pattern / who-may-write currentPos; _category index bounds. " +
 			"Decides the parser part of 'no panic on any pattern'. Not decided: index arithmetic outside the parser, non-termination.",
 	})
@@ -129,7 +129,7 @@ func init() {
 	})
 	register(&Prop{
 		ID:    "C09",
-		Rules: []func(*core.Ctx){RRepConst, RRepCases, RRepID, RCompact, rDirFoldOnly, RSlot, RCapsKey},
+		Rules: []func(*core.Ctx){RRepConst, RRepCases, RRepID, RCommitPos, RCompact, rDirFoldOnly, RSlot, RCapsKey},
 		Explanation: "R-REPCONST (encoder and decoder of replacement rules are the same affine map over equal constants), R-REPCASES (every special token has an arm in both expansion functions; the right-to-left expansion collects pieces last-to-first), R-COMPACT (balancing compaction precedes every expansion of the reused match; count discipline of the replace loops), R-DIRFOLD (Split and the replace drivers are direction-aware), R-SLOT (group numbers reach slots through the maps, including inside Split). " +
 			"That the pieces are concatenated with the right text in between, $-grammar ambiguities and identity of $& are NOT decided.",
 	})
